@@ -1542,7 +1542,8 @@ impl Melda {
                     .lock()
                     .expect("failed_to_acquire_revision_tree_for_reading");
                 if let Some(winner) = rt_r.get_winner() {
-                    if !winner.is_deleted() {
+                    // A deleted array descriptor that is still referenced reads as an empty array
+                    if !winner.is_deleted() || is_array_descriptor(uuid) {
                         let mut obj = self.read_object_at_revision(uuid, &rt_r, winner).unwrap();
                         drop(rt_r);
                         obj.insert(ID_FIELD.to_string(), Value::from(uuid.clone()));
